@@ -973,6 +973,16 @@ tunnel_dns(int tun_fd, int dns_fd)
 			   is following now. */
 			/* okay, nothing to do here, just so that next else-if
 			   doesn't trigger */
+		} else if (new_down_fragment == 0 && inpkt.fragment == 0 &&
+			   inpkt.len > 0 &&
+			   ((size_t) (read - 2) != (size_t) inpkt.len ||
+			    memcmp(&buf[2], inpkt.data, inpkt.len) != 0)) {
+			/* A first fragment again, but not a repeat of the one
+			   we hold: the server gave that packet up (our acks
+			   did not get through) and its seqno has come round.
+			   Start over with this one; appending its next
+			   fragment to the old data would merge two packets. */
+			inpkt.len = 0;
 		} else if (new_down_fragment <= inpkt.fragment) {
 			/* Same packet but duplicate fragment, ignore.
 			   If the server didn't get our ack for it, the next
